@@ -284,6 +284,7 @@ def run(ctx):
         if not ok:
             ctx.fail(f'{name}: einsum does not equal the semiring einsum of the dense operands', case, dict(shape=shape, value=impl),
                      dict(shape=want_shape, value=[str(x) for x in spec]), tags=['einsum-value', name])
+    run_viteinsum_model(ctx)
     run_mv_mm(ctx)
 
 
@@ -340,6 +341,8 @@ def run_viteinsum_model(ctx, n=None):
         types, ops_ix, out = gen_job(ctx.rng)
         if not ops_ix or math.prod([ty_numel(t) for t in types.values()] + [1]) > 300:
             continue
+        if k % 2:
+            out = out[:len(out) // 2]        # more summed-out index variables
         # few ties (distinct-ish weights) in two runs out of three, many ties otherwise
         vals = [0.0, -1.0, -2.0, 1.0] if k % 3 == 0 else [-(i + 1) * 0.5 ** (i % 5 + 1) for i in range(23)] + [0.0, 1.0]
         operands = [random_pt(ctx.rng, [types[l] for l in ix], values=vals, defaults=[-math.inf], specials=0.0) for ix in ops_ix]
